@@ -258,6 +258,14 @@ def c03_cells():
                                 c2 = dict(c, vac=False)
                                 c2["key"] = c["key"] + "|novac"
                                 cells.append(c2)
+                                if reg == "hollow":
+                                    # the same superlattice with a compact interface: the two materials meet at the
+                                    # nearest-neighbour distance of a bulk metal (sum of the covalent radii - 0.12 A)
+                                    # instead of + 0.25 A, i.e. the stack continues like one crystal and each slab's
+                                    # periodic images are as close as the family allows
+                                    c3 = dict(c, vac=False, delta=-0.12)
+                                    c3["key"] = c["key"] + "|novac|compact"
+                                    cells.append(c3)
     return cells
 
 
@@ -290,6 +298,7 @@ def build_c03(cell, delta=0.25, vacuum=9.0):
     bot_mask = np.abs(zb - zb.min()) < 1e-6
     bot = sb.get_positions()[bot_mask]
     u1, u2 = ca[0] / n, ca[1] / n
+    delta = cell.get("delta", delta)
     target = covalent_radii[atomic_numbers[A]] + covalent_radii[atomic_numbers[B]] + delta
     # lateral registry: B's bottom layer on top of / in the hollows of A's top layer
     shift = top[0, :2] - bot[0, :2]
